@@ -1201,6 +1201,11 @@ class SQLModel:
             temp_id_source = [0]
         if using is None:
             using = OrderedSet(project_node.column_names)
+        if (len(project_node.group_by) < 1) and (
+            len(set(using).intersection(project_node.ops.keys())) < 1
+        ):
+            # an un-grouped project must keep an aggregation to return exactly one row
+            using = OrderedSet(using).union([list(project_node.ops.keys())[0]])
         subops = {k: op for (k, op) in project_node.ops.items() if k in using}
         subusing = project_node.columns_used_from_sources(using=using)[0]
         terms = {ci: self.expr_to_sql(oi) for (ci, oi) in subops.items()}
@@ -2040,7 +2045,8 @@ class SQLModel:
         terms_strs = ["*"]  # allow * notation if nothing is specified
         terms = near_sql.terms
         if terms is not None:
-            if columns is None:
+            if (columns is None) or (len(columns) < 1):
+                # nothing specific requested: keep the step's own terms (an aggregation must stay an aggregation)
                 columns = [k for k in terms.keys()]
             terms_strs = [self.enc_term_(k, terms=terms) for k in columns]
             if len(terms_strs) < 1:
